@@ -431,7 +431,18 @@ impl<'a> TypeEncoder<'a> {
             self.import(state, name, *kind);
         }
 
+        // Likewise, an interface the world exports is encoded before the exported
+        // interfaces that use it, so that they refer to the export rather than to
+        // an implicit import of the same interface.
+        let mut exported = HashSet::new();
         for (name, kind) in &world.exports {
+            if exported.contains(name.as_str()) {
+                continue;
+            }
+            if let ItemKind::Instance(id) = kind {
+                self.export_explicit_deps(state, world, *id, &mut exported);
+            }
+            exported.insert(name);
             self.export(state, name, *kind);
         }
 
@@ -465,6 +476,31 @@ impl<'a> TypeEncoder<'a> {
                 if imported.insert(name.as_str()) {
                     self.import(state, name, *kind);
                 }
+            }
+        }
+    }
+
+    /// Encodes the explicit exports of `world` that the exported interface `id`
+    /// directly depends on, dependencies first.
+    fn export_explicit_deps(
+        &self,
+        state: &mut State,
+        world: &'a World,
+        id: InterfaceId,
+        exported: &mut HashSet<&'a str>,
+    ) {
+        for used in self.0[id].uses.values() {
+            let Some(iid) = &self.0[used.interface].id else {
+                continue;
+            };
+            match world.exports.get_key_value(iid) {
+                Some((name, kind @ ItemKind::Instance(export))) if *export == used.interface => {
+                    if exported.insert(name.as_str()) {
+                        self.export_explicit_deps(state, world, used.interface, exported);
+                        self.export(state, name, *kind);
+                    }
+                }
+                _ => {}
             }
         }
     }
